@@ -711,7 +711,8 @@ func addTimeSubs(cfg *ResponseConfig, a *asset, period *m.Period, languages []st
 // the previous first segment left the time-shift window.
 func calcPublishTimeMS(cfg *ResponseConfig, se segEntries, nowMS int, tsbd m.Duration) int64 {
 	publishMS := int64(math.Round(calcPublishTime(cfg, se.lsi) * 1000))
-	if len(se.entries) == 0 || se.entries[0].T == nil || se.mediaTimescale == 0 {
+	if len(se.entries) == 0 || se.entries[0].T == nil || se.mediaTimescale == 0 || se.startNr <= 0 {
+		// Nothing listed, or the first entry is the first segment of the stream, which never replaced another one
 		return publishMS
 	}
 	// The first entry became the first one when its end passed the start of the window (end + tsbd - ato).
